@@ -41,6 +41,13 @@ func point(op, path string) (*simrt.Sim, syscall.Errno) {
 	}
 	s.Yield("os."+op, short(path))
 	s.IOOps++
+	if s.Cfg.IOErrFrom > 0 && s.IOOps >= s.Cfg.IOErrFrom {
+		switch op {
+		case "create", "createtemp", "write", "mkdir", "mkdirall", "mkdirtemp", "link", "symlink":
+			s.FaultsHit["disk_full_ENOSPC"]++
+			return s, syscall.ENOSPC
+		}
+	}
 	if e, ok := s.Cfg.IOErrAt[s.IOOps]; ok {
 		k := e % len(errnos)
 		s.FaultsHit["ioerr_"+errnoNames[k]]++
